@@ -281,14 +281,15 @@ impl ProcActor {
 }
 
 /// Spawn `sched-child` for sender `s` and hand it `tx` (its bootstrap runs ungated).
-pub fn spawn_child_sender(s: i64, npks: &[i64], tx: IpcSender<Vec<u8>>) -> ProcActor {
-    let (server, name) = IpcOneShotServer::<IpcSender<IpcSender<Vec<u8>>>>::new().unwrap();
+pub fn spawn_child_sender(s: i64, npks: &[i64], tx: IpcSender<SMsg>, attach: bool) -> ProcActor {
+    let (server, name) = IpcOneShotServer::<IpcSender<IpcSender<SMsg>>>::new().unwrap();
     let exe = std::env::current_exe().unwrap();
     let mut child = Command::new(exe)
         .arg("sched-child")
         .arg(&name)
         .arg(s.to_string())
         .arg(npks.iter().map(|x| x.to_string()).collect::<Vec<_>>().join(","))
+        .arg(if attach { "attach" } else { "plain" })
         .stdin(Stdio::piped())
         .stdout(Stdio::piped())
         .spawn()
@@ -306,6 +307,15 @@ pub fn spawn_child_sender(s: i64, npks: &[i64], tx: IpcSender<Vec<u8>>) -> ProcA
         finished: false,
         sends: Vec::new(),
     }
+}
+
+/// What travels on the channel under test: the payload and, for the multi-packet messages of a plan with
+/// `attach`, a clone of the sending handle itself (an attachment that rides in the first packet).
+pub type SMsg = (Vec<u8>, Option<ipc_channel::ipc::OpaqueIpcSender>);
+
+pub fn make_msg(s: i64, j: i64, npk: i64, attach: bool, tx: &IpcSender<SMsg>) -> SMsg {
+    let att = if attach && npk >= 2 { Some(tx.clone().to_opaque()) } else { None };
+    (msg_bytes(s, j, npk), att)
 }
 
 pub fn msg_len(npk: i64) -> usize {
@@ -331,11 +341,12 @@ pub fn child_main(args: &[String]) {
     let name = args[0].clone();
     let s: i64 = args[1].parse().unwrap();
     let npks: Vec<i64> = args[2].split(',').filter(|x| !x.is_empty()).map(|x| x.parse().unwrap()).collect();
+    let attach = args.get(3).map(|a| a == "attach").unwrap_or(false);
     let _ = ipc_channel::platform::verif_constants(4096);
     // bootstrap: give the parent a channel on which it hands us our sender handle
-    let (btx, brx) = ipc::channel::<IpcSender<Vec<u8>>>().unwrap();
+    let (btx, brx) = ipc::channel::<IpcSender<SMsg>>().unwrap();
     {
-        let boot: IpcSender<IpcSender<IpcSender<Vec<u8>>>> = IpcSender::connect(name).unwrap();
+        let boot: IpcSender<IpcSender<IpcSender<SMsg>>> = IpcSender::connect(name).unwrap();
         boot.send(btx).unwrap();
     }
     let tx = brx.recv().unwrap();
@@ -360,7 +371,7 @@ pub fn child_main(args: &[String]) {
         }
     })));
     for (j, npk) in npks.iter().enumerate() {
-        let ok = tx.send(msg_bytes(s, j as i64 + 1, *npk)).is_ok();
+        let ok = tx.send(make_msg(s, j as i64 + 1, *npk, attach, &tx)).is_ok();
         println!("S {} {}", j + 1, ok as i32);
     }
     drop(tx);
@@ -375,9 +386,11 @@ enum Actor {
     Proc(ProcActor),
 }
 
-fn recv_result(r: Result<Vec<u8>, TryRecvError>) -> Value {
+fn recv_result(r: Result<SMsg, TryRecvError>) -> Value {
     match r {
-        Ok(d) => {
+        Ok((d, att)) => {
+            // an attached clone of the sending handle is let go at once
+            drop(att);
             let tag = if d.len() >= 8 {
                 u64::from_le_bytes(d[..8].try_into().unwrap())
             } else {
@@ -426,9 +439,10 @@ fn run_case(case: &Value, gates: &Gates) -> Value {
         .map(|a| a.iter().filter_map(|x| x.as_i64()).collect())
         .unwrap_or_default();
     let sched = case["sched"].as_array().cloned().unwrap_or_default();
+    let attach = case["attach"].as_bool().unwrap_or(false);
 
     verif::set_actor(-1);
-    let (tx, rx) = ipc::channel::<Vec<u8>>().unwrap();
+    let (tx, rx) = ipc::channel::<SMsg>().unwrap();
     let mut actors: HashMap<i64, Actor> = HashMap::new();
     let send_results: Arc<Mutex<Vec<(i64, i64, bool)>>> = Arc::new(Mutex::new(Vec::new()));
 
@@ -438,7 +452,7 @@ fn run_case(case: &Value, gates: &Gates) -> Value {
         if !procs.contains(&s) {
             continue;
         }
-        actors.insert(s, Actor::Proc(spawn_child_sender(s, npks, tx.clone())));
+        actors.insert(s, Actor::Proc(spawn_child_sender(s, npks, tx.clone(), attach)));
     }
     // thread senders
     for (i, npks) in msgs.iter().enumerate() {
@@ -448,7 +462,7 @@ fn run_case(case: &Value, gates: &Gates) -> Value {
         }
         // a handle with a descriptor of its own (clones share one): pass a clone through a channel
         let txs = {
-            let (htx, hrx) = ipc::channel::<IpcSender<Vec<u8>>>().unwrap();
+            let (htx, hrx) = ipc::channel::<IpcSender<SMsg>>().unwrap();
             htx.send(tx.clone()).unwrap();
             hrx.recv().unwrap()
         };
@@ -460,7 +474,7 @@ fn run_case(case: &Value, gates: &Gates) -> Value {
             verif::set_actor(s);
             g.set_tid(s);
             for (j, npk) in npks.iter().enumerate() {
-                let ok = txs.send(msg_bytes(s, j as i64 + 1, *npk)).is_ok();
+                let ok = txs.send(make_msg(s, j as i64 + 1, *npk, attach, &txs)).is_ok();
                 sres.lock().unwrap().push((s, j as i64 + 1, ok));
             }
             drop(txs);
